@@ -40,7 +40,7 @@ RULE = ('operation scripts over 1..4 registers holding frequent_items_sketch<uin
         'serialize/deserialize (bytes and stream; the image bytes are compared with the modelled layout) into another register; '
         'after and between updates: every getter for tracked, '
         'purged and never-seen items, full dumps, get_frequent_items of both error types with default and explicit thresholds '
-        '(0, small, around the maximum error, large); non-trivial = more distinct items than the map capacity (purges happen) or a merge '
+        '(0, 1, maximum error - 1, maximum error, maximum error + 1, large) on sketches in estimation mode; non-trivial = more distinct items than the map capacity (purges happen) or a merge '
         'or a round trip')
 TRUSTED = ['hash functors are defined in harness/drv_fi.cpp and modelled identically in coq/FiDefs.v (user_hash); fmix64 from coq/Murmur3.v',
            'std::nth_element postcondition (element at n/2 of the sorted sample) and std::sort (a permutation sorted by the comparator)',
@@ -148,8 +148,15 @@ def gen_case(rng, tier, ci):
 
     def freq(q):
         et = rng.choice([0, 1])
-        if rng.random() < 0.45:
+        k = rng.random()
+        if k < 0.35:
             ops.append([6, q, et, 0, 0])
+        elif k < 0.6:
+            # explicit thresholds 0, 1 and around the maximum error (has = 2: threshold = max 0 (maximum error + delta))
+            if rng.random() < 0.4:
+                ops.append([6, q, et, 1, rng.choice([0, 0, 1])])
+            else:
+                ops.append([6, q, et, 2, rng.choice([-1, -1, 0, 0, 1, -2, -5, -(10 ** 6)])])
         elif small_thr or et == 0:
             thr = rng.choice([0, 0, 1, 2, 3, 5, 10, 100, 1000, max(1, sum(pos)) // rng.choice([2, 4, 8, 16, 64]), big])
             ops.append([6, q, et, 1, thr])
@@ -213,6 +220,8 @@ def gen_case(rng, tier, ci):
     ops.append([5, a])
     for et in (0, 1):
         ops.append([6, a, et, 0, 0])
+    for et, has, thr in ((1, 1, 0), (1, 1, 1), (1, 2, -1), (1, 2, 0), (0, 2, -1)):
+        ops.append([6, a, et, has, thr])
     freq(a); freq(a)
     pool = sorted(seen[a])
     rng.shuffle(pool)
@@ -232,9 +241,12 @@ def fixed_cases():
          [[5, 0], [6, 0, 0, 0, 0], [6, 0, 1, 0, 0]] + [[3, 0, 0] + mk_item(2, i) for i in range(24)]
     c5 = [[1, 0, 1, 3, 3], [1, 1, 1, 5, 3]] + [[2, i % 2, 1 + i % 4, (i * 5) % 31] for i in range(150)] + \
          [[4, 0, 1], [5, 0], [14, 1, 0], [5, 1], [4, 1, 1], [5, 1], [6, 1, 1, 0, 0], [6, 1, 0, 0, 0]] + [[3, 1, 0, i] for i in range(31)]
+    c6 = [[1, 0, 0, 3, 3]] + [[2, 0, 50 if i % 9 == 0 else 1 + i % 3, 0 if i % 9 == 0 else 1 + i % 40] for i in range(200)] + \
+         [[5, 0]] + [[6, 0, et, has, thr] for et in (1, 0) for has, thr in ((1, 0), (1, 1), (2, -1), (2, -3), (2, 0), (2, 1), (0, 0))] + \
+         [[3, 0, 0, 0], [3, 0, 0, 7]]
     tags = [['finding-nfn-threshold'], ['merge-purged-empty'], ['finding-roundtrip-purged-empty'], ['finding-eps-mixed-sizes'],
-            ['fixed-strings'], ['fixed-cluster-merge']]
-    return [dict(id='fx%d' % i, ops=c, tags=tags[i]) for i, c in enumerate([c0, c1, c2, c3, c4, c5])]
+            ['fixed-strings'], ['fixed-cluster-merge'], ['fixed-nfn-thresholds-estimation-mode']]
+    return [dict(id='fx%d' % i, ops=c, tags=tags[i]) for i, c in enumerate([c0, c1, c2, c3, c4, c5, c6])]
 
 def gen(rng, tier):
     n = 140 if tier == 'quick' else 600
@@ -328,26 +340,46 @@ def oracle(case, irecs, mrecs):
             n, maxerr = R[0], R[1]
             rows = parse_rows(R[2:], 3)
             truth = dict((it, v[0]) for it, v in parse_rows(S[1:], 1))
-            thr = op[4] if op[3] else maxerr
+            thr = maxerr if op[3] == 0 else (max(0, maxerr + op[4]) if op[3] == 2 else op[4])
             got = set(it for it, _ in rows)
+            Fl = F or []
+            tracked = dict((it, v[0]) for it, v in parse_rows(Fl[n:], 1))    # counters in the implementation's map
             for it, v in rows:
                 bracket(i, op[1], 'row %s' % (it,), v[0], v[1], v[2], maxerr, truth.get(it, 0))
             if op[2] == 1:      # NO_FALSE_NEGATIVES
                 miss = [it for it, w in truth.items() if w > thr and it not in got]
-                if miss:
+                # a TRACKED item whose upper bound exceeds the threshold must be returned: never excused
+                mt = [it for it in miss if it in tracked and tracked[it] + maxerr > thr]
+                mu = [it for it in miss if it not in mt]
+                if mt:
+                    fail('nfn_missing_tracked_item',
+                         'NO_FALSE_NEGATIVES (threshold %d, maximum error %d) omits TRACKED item %s: counter %d, upper bound %d, true weight %d'
+                         % (thr, maxerr, mt[0], tracked[mt[0]], tracked[mt[0]] + maxerr, truth[mt[0]]), i)
+                if mu:
                     if thr < maxerr and not (meta.get(op[1]) and meta[op[1]]['taint']):
-                        fail('nfn_missing_threshold_below_max_error',
-                             'NO_FALSE_NEGATIVES with threshold %d < maximum error %d omits item %s of true weight %d'
-                             % (thr, maxerr, miss[0], truth[miss[0]]), i)
+                        # recorded finding: only for items that are NOT in the map (purged / never kept)
+                        fail('nfn_missing_untracked_item_threshold_below_max_error',
+                             'NO_FALSE_NEGATIVES with threshold %d < maximum error %d omits UNTRACKED item %s of true weight %d'
+                             % (thr, maxerr, mu[0], truth[mu[0]]), i)
                     else:
                         fail('nfn_missing', 'NO_FALSE_NEGATIVES (threshold %d) omits item %s of true weight %d'
-                             % (thr, miss[0], truth[miss[0]]), i, op[1], True)
+                             % (thr, mu[0], truth[mu[0]]), i, op[1], True)
+                extra = [it for it in got if it not in tracked or tracked[it] + maxerr <= thr]
+                if extra:
+                    fail('nfn_row_not_tracked_or_ub_not_above_threshold',
+                         'NO_FALSE_NEGATIVES (threshold %d) returns item %s that is not tracked or whose upper bound is <= threshold'
+                         % (thr, extra[0]), i)
             else:               # NO_FALSE_POSITIVES
                 bad = [it for it in got if truth.get(it, 0) <= thr]
                 if bad:
                     fail('nfp_false_positive', 'NO_FALSE_POSITIVES (threshold %d) returns item %s of true weight %d'
                          % (thr, bad[0], truth.get(bad[0], 0)), i)
-            ests = F or []
+                # documented filter (frequent_items_sketch.hpp): a tracked item with lower bound > threshold is included
+                mt = [it for it, c in tracked.items() if c > thr and it not in got]
+                if mt:
+                    fail('nfp_missing_tracked_item', 'NO_FALSE_POSITIVES (threshold %d) omits tracked item %s with lower bound %d'
+                         % (thr, mt[0], tracked[mt[0]]), i)
+            ests = Fl[:n]
             if len(ests) != n:
                 fail('row_count', 'row count mismatch %d vs %d' % (len(ests), n), i)
             if any(ests[j] < ests[j + 1] for j in range(len(ests) - 1)):
